@@ -30,7 +30,7 @@ ASSUMPTIONS = [
 ]
 
 EDITS = ["blank", "spaces", "unknown", "remark", "anisou", "conect", "hetnam", "sigatm", "ter", "end",
-         "tab-blank", "master"]  # fmt: skip
+         "tab-blank", "master", "het-bad", "ssbond-bad", "cryst1-bad", "seqres-bad"]  # fmt: skip
 
 
 @st.composite
@@ -217,6 +217,16 @@ def render(case):
             text = "CONECT    1    2    3"
         elif kind == "hetnam":
             text = "HETNAM     HOH WATER"
+        elif kind == "het-bad":
+            # records of KNOWN types that do not parse (blank / non-numeric fields): reported, never a reason
+            # to lose a coordinate record
+            text = "HET    SO4  A 101           SULFATE ION"
+        elif kind == "ssbond-bad":
+            text = "SSBOND   x CYS A    ?    CYS A   yy"
+        elif kind == "cryst1-bad":
+            text = "CRYST1   none"
+        elif kind == "seqres-bad":
+            text = "SEQRES   A"
         elif kind == "master":
             text = "MASTER        0    0    0    0    0    0    0    6   10    0   10    1"
         else:
